@@ -2,6 +2,7 @@
 from __future__ import annotations
 
 import glob
+import hashlib
 import os
 
 import yaml
@@ -74,7 +75,11 @@ _MEM = st.sampled_from([0, 0, 1, 9, 0x100])
 
 def _data(min_size=1):
     n = st.one_of(st.integers(min_size, 64), st.sampled_from([1, 15, 16, 17, 100, 208, 224, 239, 240, 241, 255, 256, 257, 500, 1024]))
-    return n.flatmap(lambda k: st.binary(min_size=max(k, min_size), max_size=max(k, min_size)))
+    blob = n.flatmap(lambda k: st.binary(min_size=max(k, min_size), max_size=max(k, min_size)))
+    # a few 32-bit numbers, the kind of data a configuration gives as `values` / `value` (zero and all-ones included)
+    word = st.one_of(st.sampled_from([0, 0, 1, 0xFFFFFFFF, 0x80000000]), st.integers(0, 0xFFFFFFFF))
+    words = st.lists(word, min_size=1, max_size=4).map(lambda ws: b"".join(w.to_bytes(4, "little") for w in ws))
+    return st.one_of(blob, blob, blob, words)
 
 
 def _words():
@@ -227,7 +232,7 @@ def _family_info(family: str) -> dict:
     return d.features(d.latest).get("sb31", {})
 
 
-def _command_cfg(cmd: dict, wd: str, idx: int, wraps_version: int):
+def _command_cfg(cmd: dict, wd: str, idx: int, wraps_version: int, supported=()):
     """YAML-style configuration entry of a command + the command it must turn into (None: not expressible)."""
     c = cmd["c"]
 
@@ -239,18 +244,48 @@ def _command_cfg(cmd: dict, wd: str, idx: int, wraps_version: int):
 
     if c == "erase":
         return {"erase": {"address": hex(cmd["address"]), "size": hex(cmd["length"]), "memoryId": cmd["memory_id"]}}, cmd
-    if c in ("load", "loadCMAC", "loadHashLocking"):
-        d = {"address": hex(cmd["address"]), "file": datafile(bytes(cmd["data"])), "memoryId": hex(cmd["memory_id"])}
-        if c != "load":
-            d["authentication"] = {"loadCMAC": "cmac", "loadHashLocking": "hashlocking"}[c]
+    def data_entry(data: bytes, min_value_len: int) -> dict:
+        """The three documented ways to give the data of a load / programIFR command: `file`, `values` (32-bit numbers
+        separated by commas, or one number) and `value` (one number, stored little endian). Which one is a pure function of
+        the command."""
+        pick = hashlib.sha256(b"form%d:" % idx + data).digest()
+        words = [int.from_bytes(data[i : i + 4], "little") for i in range(0, len(data), 4)]
+
+        def num(w: int, k: int):
+            return [hex(w), str(w), "0x%08X" % w, "0b" + bin(w)[2:]][pick[(k + 1) % 32] % 4]
+
+        r = pick[0] % 3
+        can_values = bool(data) and len(data) % 4 == 0 and len(data) <= 64
+        # `value`: the width is the smallest of 1, 2, 4, 8, 16 bytes that holds the number (documented width rule of
+        # value_to_bytes); only data whose top byte is set are given this way, so that the width is their length
+        can_value = len(data) in (1, 2, 4, 8, 16) and len(data) >= min_value_len and data[-1] != 0
+        if can_value and r == 2:
+            v = int.from_bytes(data, "little")
+            return {"value": v if pick[1] % 2 else hex(v)}
+        if can_values and (r >= 1 or not any(words)):
+            if len(words) == 1 and (pick[1] % 2 or not words[0]):
+                return {"values": words[0]}  # "one 32 bit integer": a plain number, zero included
+            sep = [",", ", ", " ,"][pick[2] % 3]
+            return {"values": sep.join(num(w, k) for k, w in enumerate(words))}
+        return {"file": datafile(data)}
+
+    if c == "load":
+        d = {"address": hex(cmd["address"]), "memoryId": hex(cmd["memory_id"])}
+        d.update(data_entry(bytes(cmd["data"]), 1))
         return {"load": d}, cmd
+    if c in ("loadCMAC", "loadHashLocking"):
+        d = {"address": hex(cmd["address"]), "file": datafile(bytes(cmd["data"])), "memoryId": hex(cmd["memory_id"])}
+        if c in supported and hashlib.sha256(b"auth%d:" % idx + bytes(cmd["data"])).digest()[0] % 2:
+            return {c: d}, cmd  # the command under its own name
+        d["authentication"] = {"loadCMAC": "cmac", "loadHashLocking": "hashlocking"}[c]
+        return {"load": d}, cmd  # the earlier spelling: a load with an authentication attribute
     if c in ("execute", "call"):
         return {c: {"address": cmd["address"]}}, cmd
     if c == "programFuses":
         words = [int.from_bytes(bytes(cmd["data"])[i : i + 4], "little") for i in range(0, len(cmd["data"]), 4)]
         return {"programFuses": {"address": hex(cmd["address"]), "values": ",".join(hex(w) for w in words) if len(words) > 1 else words[0]}}, cmd
     if c == "programIFR":
-        return {"programIFR": {"address": cmd["address"], "file": datafile(bytes(cmd["data"]))}}, cmd
+        return {"programIFR": dict({"address": cmd["address"]}, **data_entry(bytes(cmd["data"]), 4))}, cmd
     if c == "copy":
         return {"copy": {"addressFrom": hex(cmd["address"]), "addressTo": cmd["destination"], "size": hex(cmd["length"]),
                          "memoryIdFrom": cmd["memory_id_from"], "memoryIdTo": hex(cmd["memory_id_to"])}}, cmd
@@ -298,10 +333,17 @@ def _build_from_config(case, o: Oracle, roots, used, isk, user_data, commands, s
         name = {"loadCMAC": "load", "loadHashLocking": "load"}.get(c["c"], c["c"])
         if name not in supported:
             continue
-        entry, eff = _command_cfg(c, wd, i, wraps_version)
+        entry, eff = _command_cfg(c, wd, i, wraps_version, supported)
         if entry is not None:
             cfg_cmds.append(entry)
             real.append(eff)
+            body = next(iter(entry.values()))
+            if c["c"] in ("load", "programIFR"):
+                o.label("cfg_data:" + next(k for k in ("file", "values", "value") if k in body))
+                if body.get("values", None) == 0 and not isinstance(body.get("values"), str):
+                    o.label("cfg_data:values_number_zero")
+            elif c["c"] in ("loadCMAC", "loadHashLocking"):
+                o.label("cfg_auth_load:" + ("own_name" if c["c"] in entry else "attribute"))
     if not cfg_cmds:
         cfg_cmds.append({"erase": {"address": 0, "size": 4096}})
         real.append({"c": "erase", "address": 0, "length": 4096, "memory_id": 0})
